@@ -38,10 +38,22 @@ func SiblingPool() *hist.Pool {
 	}
 }
 
+// MethodPool: few patterns under several custom methods (the method roots slice grows, shrinks and
+// shifts; Truncate with several methods).
+func MethodPool() *hist.Pool {
+	return &hist.Pool{
+		Methods:    []string{"GET", "FOO", "BAR", "BAZ"},
+		Patterns:   []string{"/a", "/a/b"},
+		BadMethod:  "get",
+		BadPattern: "/{x",
+	}
+}
+
 // Case is a replayable C02 case: an operation list whose last operation is the one checked.
 type Case struct {
 	Quick    bool      `json:"quick"`
 	Siblings bool      `json:"siblings,omitempty"`
+	Pool     string    `json:"pool,omitempty"`
 	Path     []hist.Op `json:"path"`
 }
 
@@ -139,6 +151,65 @@ func run(c *mc.Ctx, r *mc.Result) {
 		sib = 6
 	}
 	runBFS(c, r, "siblings", SiblingPool(), sib, true)
+	runBFS(c, r, "methods", MethodPool(), 3, false)
+	runFan(c, r)
+}
+
+// runFan: nodes with 48..53 children (the linear/binary search switch in getEdge/updateEdge is at
+// 50): every mutating operation on the first, a middle and the last sibling, and insertion of a new
+// sibling sorting first / in the middle / last, directly, committed and aborted; after each, the
+// complete observation is compared with the map model.
+func runFan(c *mc.Ctx, r *mc.Result) {
+	const letters = "0123456789ABCDEFGHIJKLMNOPQRSTUVWXYZabcdefghijklmnopqrstuvwxyz"
+	r.Bounds["fan"] = "48..53 static siblings under '/' and under '/{p}/' x {Handle new first/middle/last, Update/Delete first/middle/last, UpdateRoute, HandleRoute} x {direct, committed txn, aborted txn}"
+	for _, prefix := range []string{"/", "/{p}/", "h.x/"} {
+		for n := 48; n <= 53; n++ {
+			// siblings use every other letter so that new ones can sort first, in the middle and last
+			var pats []string
+			for i := 0; i < n; i++ {
+				pats = append(pats, prefix+string(letters[1+i]))
+			}
+			newOnes := []string{prefix + string(letters[0]), prefix + string(letters[1+n/2]) + "x", prefix + string(letters[1+n])}
+			pool := &hist.Pool{Methods: []string{"GET"}, Patterns: append(append([]string{}, pats...), newOnes...)}
+			var seedPath []hist.Op
+			for _, p := range pats {
+				seedPath = append(seedPath, hist.Op{Kind: hist.Handle, Method: "GET", Pattern: p})
+			}
+			from := &hist.State{Path: seedPath, Model: hist.ModelOf(seedPath)}
+			targets := []string{pats[0], pats[n/2], pats[n-1]}
+			var ops []hist.Op
+			for mode := 0; mode < 3; mode++ {
+				for _, p := range newOnes {
+					ops = append(ops, hist.Op{Kind: hist.Handle, Method: "GET", Pattern: p, Mode: mode}, hist.Op{Kind: hist.HandleRoute, Method: "GET", Pattern: p, Mode: mode}, hist.Op{Kind: hist.Delete, Method: "GET", Pattern: p, Mode: mode})
+				}
+				for _, p := range targets {
+					ops = append(ops, hist.Op{Kind: hist.Update, Method: "GET", Pattern: p, Mode: mode}, hist.Op{Kind: hist.UpdateRoute, Method: "GET", Pattern: p, Mode: mode}, hist.Op{Kind: hist.Delete, Method: "GET", Pattern: p, Mode: mode}, hist.Op{Kind: hist.Handle, Method: "GET", Pattern: p, Mode: mode})
+				}
+			}
+			for _, op := range ops {
+				next, viols := Step(pool, from, op)
+				r.Evaluations++
+				r.Transitions++
+				r.TracesValidated++
+				for _, v := range viols {
+					r.Violate("bfs", v.Class, fmt.Sprintf("[%d siblings under %q] ", n, prefix)+v.Msg, Case{Pool: "fan", Path: v.Path})
+				}
+				// one more step from the successor: the operation applied to a tree that just changed
+				if next != nil && len(viols) == 0 {
+					for _, op2 := range ops[:7] {
+						_, v2 := Step(pool, next, op2)
+						r.Evaluations++
+						r.Transitions++
+						for _, v := range v2 {
+							r.Violate("bfs", v.Class, fmt.Sprintf("[%d siblings under %q] ", n, prefix)+v.Msg, Case{Pool: "fan", Path: v.Path})
+						}
+					}
+				}
+			}
+			r.States++
+			r.DistinctNontrivial++
+		}
+	}
 }
 
 func runBFS(c *mc.Ctx, r *mc.Result, name string, p *hist.Pool, maxLive int, siblings bool) {
@@ -164,7 +235,7 @@ func runBFS(c *mc.Ctx, r *mc.Result, name string, p *hist.Pool, maxLive int, sib
 		r.NotExhaustive = append(r.NotExhaustive, "BFS "+name+" stopped by the time guard")
 	}
 	for _, v := range viols {
-		r.Violate("bfs", v.Class, v.Msg, Case{Quick: c.Quick(), Siblings: siblings, Path: v.Path})
+		r.Violate("bfs", v.Class, v.Msg, Case{Quick: c.Quick(), Siblings: siblings, Pool: name, Path: v.Path})
 	}
 	for i, s := range g.States {
 		if i == 1 || i == len(g.States)-1 {
@@ -181,6 +252,20 @@ func replay(c *mc.Ctx, raw json.RawMessage) string {
 	p := PoolFor(cs.Quick)
 	if cs.Siblings {
 		p = SiblingPool()
+	}
+	if cs.Pool == "methods" {
+		p = MethodPool()
+	}
+	if cs.Pool == "fan" {
+		// the pool is every pattern that occurs in the history
+		seen := map[string]bool{}
+		p = &hist.Pool{Methods: []string{"GET"}}
+		for _, o := range cs.Path {
+			if !seen[o.Pattern] {
+				seen[o.Pattern] = true
+				p.Patterns = append(p.Patterns, o.Pattern)
+			}
+		}
 	}
 	pre := cs.Path[:len(cs.Path)-1]
 	from := &hist.State{Path: pre, Model: hist.ModelOf(pre)}
